@@ -22,6 +22,9 @@ struct Gen<'r> {
     marker_no: usize,
     node_names: usize,
     swarm: Swarm,
+    /// side stream for shapes added later (rule call at the head of an alternative, `~` inside an optional part of an
+    /// alternative, alternations whose branches are all predicate-guarded): the main stream's decisions stay what they were
+    extra: Rng,
 }
 #[derive(Clone, Copy)]
 struct Swarm {
@@ -187,6 +190,14 @@ impl Gen<'_> {
                     p.push(self.tok_rx(t));
                 }
             }
+            // an alternative that starts with a rule call: the callee's node is opened before anything is consumed, so
+            // an attempt can be abandoned (assertion, guarded branches all false) with an open node and no progress
+            if self.extra.chance(1, 4) {
+                let cands: Vec<usize> = (cx.rule + 1..self.nrules).filter(|r| self.safe[*r]).collect();
+                if !cands.is_empty() {
+                    p[0] = Rx::Rule(*self.extra.pick(&cands));
+                }
+            }
             p
         };
         let mut alts = vec![];
@@ -207,6 +218,13 @@ impl Gen<'_> {
                     v.push(Rx::Commit);
                     committed = true;
                 }
+                if !last && !committed && self.extra.chance(1, 8) {
+                    // `[T ~ U]`: the commit is only reached when the optional part is taken; behind it the alternative
+                    // is still undoable when it was skipped
+                    let plain = self.plain.clone();
+                    let (t, u) = (*self.extra.pick(&plain), *self.extra.pick(&plain));
+                    v.push(Rx::Opt(Box::new(Rx::Seq(vec![Rx::Tok(t), Rx::Commit, Rx::Tok(u)]))));
+                }
                 let icx = if committed { Ctx { depth: cx.depth + 1, ..cx } } else { acx };
                 v.extend(self.item(icx, false));
             }
@@ -224,7 +242,27 @@ impl Gen<'_> {
             None
         } else if self.rng.chance(1, 4) {
             let n = self.rng.range(2, 4);
-            Some(Rx::Alt((0..n).map(|_| self.guarded_seq(cx)).collect()))
+            let mut alts: Vec<Rx> = (0..n).map(|_| self.guarded_seq(cx)).collect();
+            if self.swarm.preds && self.extra.chance(1, 5) {
+                // every branch behind a predicate: with all of them false no branch is left for the token
+                for a in alts.iter_mut() {
+                    let guarded = match a {
+                        Rx::Seq(v) => matches!(v.first(), Some(Rx::Pred(_))),
+                        _ => false,
+                    };
+                    if !guarded {
+                        let p = Rx::Pred(self.extra.range(1, 3).to_string());
+                        *a = match std::mem::replace(a, Rx::Empty) {
+                            Rx::Seq(mut v) => {
+                                v.insert(0, p);
+                                Rx::Seq(v)
+                            }
+                            other => Rx::Seq(vec![p, other]),
+                        };
+                    }
+                }
+            }
+            Some(Rx::Alt(alts))
         } else {
             let mut v = vec![];
             let n = self.rng.range(1, 4);
@@ -253,6 +291,22 @@ impl Gen<'_> {
                 v.push(Rx::Create { num: None, name });
             }
             Some(if v.len() == 1 { v.pop().unwrap() } else { Rx::Seq(v) })
+        };
+        // a rule callable from an undoable alternative that starts with an assertion: the adversary can abandon the attempt
+        // after the rule's node has been opened and before anything is consumed
+        let body = match body {
+            Some(b) if self.safe[r] && self.extra.chance(1, 4) => {
+                let a = Rx::Assert(self.extra.range(1, 3).to_string());
+                Some(match b {
+                    Rx::Seq(mut v) => {
+                        v.insert(0, a);
+                        Rx::Seq(v)
+                    }
+                    Rx::Alt(alts) => Rx::Seq(vec![a, Rx::Paren(Box::new(Rx::Alt(alts)))]),
+                    other => Rx::Seq(vec![a, other]),
+                })
+            }
+            b => b,
         };
         RuleM { name: self.names[r].clone(), elided, body }
     }
@@ -355,7 +409,8 @@ pub fn random_grammar(rng: &mut Rng) -> GModel {
     };
     let safe: Vec<bool> = (0..nrules).map(|i| i > 0 && rng.chance(1, 2)).collect();
     let pratt: Vec<bool> = (0..nrules).map(|i| i > 0 && rng.chance(1, 6)).collect();
-    let mut g = Gen { rng, tokens, plain, nrules, safe, pratt, names, starters: vec![], choice_no: 0, recursive_ok: false, marker_no: 0, node_names: 0, swarm };
+    let extra = rng.child("generator side stream", 0);
+    let mut g = Gen { rng, tokens, plain, nrules, safe, pratt, names, starters: vec![], choice_no: 0, recursive_ok: false, marker_no: 0, node_names: 0, swarm, extra };
     let mut rules: Vec<Option<RuleM>> = vec![None; nrules];
     for r in (0..nrules).rev() {
         rules[r] = Some(if g.pratt[r] { g.pratt_rule(r) } else { g.normal_rule(r, r == 0) });
